@@ -18,6 +18,12 @@ pub struct ServerOpts {
     pub conn_window: Option<u32>,
     pub max_frame: Option<u32>,
     pub concurrency_limit: Option<usize>,
+    pub max_concurrent_streams: Option<u32>,
+    /// (interval, timeout)
+    pub keepalive: Option<(Duration, Duration)>,
+    /// only used by fault-injecting scenarios with a relaxed oracle: the server closes connections
+    /// gracefully (GOAWAY) after this age
+    pub max_connection_age: Option<Duration>,
 }
 
 #[derive(Clone, Debug, Default)]
@@ -26,6 +32,13 @@ pub struct ClientOpts {
     pub stream_window: Option<u32>,
     pub conn_window: Option<u32>,
     pub lazy: bool,
+    pub concurrency_limit: Option<usize>,
+    /// (requests, per duration)
+    pub rate_limit: Option<(u64, Duration)>,
+    pub buffer_size: Option<usize>,
+    /// (interval, timeout (None = hyper's default of 20 s), while idle)
+    pub keepalive: Option<(Duration, Option<Duration>, bool)>,
+    pub user_agent: Option<&'static str>,
 }
 
 /// Run `f` on a fresh simulated runtime; the virtual horizon turns a deadlock into a value.
@@ -91,6 +104,15 @@ where
     if let Some(c) = opts.concurrency_limit {
         b = b.concurrency_limit_per_connection(c);
     }
+    if let Some(m) = opts.max_concurrent_streams {
+        b = b.max_concurrent_streams(m);
+    }
+    if let Some((i, t)) = opts.keepalive {
+        b = b.http2_keepalive_interval(Some(i)).http2_keepalive_timeout(Some(t));
+    }
+    if let Some(a) = opts.max_connection_age {
+        b = b.max_connection_age(a);
+    }
     let router = b.add_service(raw).add_service(echo).add_service(bare);
     let incoming = incoming.map(move |io| {
         if let (Some(f), Ok(io)) = (on_yield.as_mut(), &io) {
@@ -117,6 +139,24 @@ pub fn endpoint(opts: &ClientOpts) -> Endpoint {
     if let Some(w) = opts.conn_window {
         e = e.initial_connection_window_size(w);
     }
+    if let Some(c) = opts.concurrency_limit {
+        e = e.concurrency_limit(c);
+    }
+    if let Some((n, d)) = opts.rate_limit {
+        e = e.rate_limit(n, d);
+    }
+    if let Some(b) = opts.buffer_size {
+        e = e.buffer_size(b);
+    }
+    if let Some((i, t, idle)) = opts.keepalive {
+        e = e.http2_keep_alive_interval(i).keep_alive_while_idle(idle);
+        if let Some(t) = t {
+            e = e.keep_alive_timeout(t);
+        }
+    }
+    if let Some(ua) = opts.user_agent {
+        e = e.user_agent(ua).expect("harness: user agent");
+    }
     e
 }
 
@@ -142,8 +182,36 @@ pub fn draw_h2_opts(sim: &Sim) -> (ServerOpts, ClientOpts) {
     // hyper/h2 for a smaller target makes h2 account for less than the peer was told and the
     // connection fails with flow-control errors (seen in simulation; outside these properties)
     let cwin = |s: &Sim| if s.chance(1, 2) { Some(s.pick(&[65_535u32, 200_000, 1 << 20])) } else { None };
-    (
-        ServerOpts { timeout: None, stream_window: win(sim), conn_window: cwin(sim), max_frame: if sim.chance(1, 3) { Some(sim.pick(&[16_384u32, 20_000, 1 << 20])) } else { None }, concurrency_limit: None },
-        ClientOpts { timeout: None, stream_window: win(sim), conn_window: cwin(sim), lazy: sim.chance(1, 2) },
-    )
+    let mut so = ServerOpts { timeout: None, stream_window: win(sim), conn_window: cwin(sim), max_frame: if sim.chance(1, 3) { Some(sim.pick(&[16_384u32, 20_000, 1 << 20])) } else { None }, ..Default::default() };
+    let mut co = ClientOpts { timeout: None, stream_window: win(sim), conn_window: cwin(sim), lazy: sim.chance(1, 2), ..Default::default() };
+    // swarm: in a third of the runs the tuning knobs that must be transparent to a call's outcome
+    // are set to drawn (often extreme) values, so that correctness never depends on the defaults
+    if sim.chance(1, 3) {
+        if sim.chance(1, 2) {
+            so.concurrency_limit = Some(sim.pick(&[1usize, 2, 8]));
+        }
+        if sim.chance(1, 2) {
+            so.max_concurrent_streams = Some(sim.pick(&[1u32, 2, 100]));
+        }
+        if sim.chance(1, 3) {
+            so.keepalive = Some((Duration::from_millis(sim.pick(&[300u64, 5_000])), Duration::from_secs(20)));
+        }
+        if sim.chance(1, 2) {
+            co.concurrency_limit = Some(sim.pick(&[1usize, 3]));
+        }
+        if sim.chance(1, 3) {
+            co.rate_limit = Some((sim.pick(&[1u64, 5]), Duration::from_millis(sim.pick(&[1u64, 50]))));
+        }
+        if sim.chance(1, 2) {
+            co.buffer_size = Some(sim.pick(&[1usize, 2, 64]));
+        }
+        if sim.chance(1, 3) {
+            co.keepalive = Some((Duration::from_millis(sim.pick(&[300u64, 5_000])), if sim.chance(1, 2) { Some(Duration::from_secs(20)) } else { None }, sim.chance(1, 2)));
+        }
+        if sim.chance(1, 3) {
+            co.user_agent = Some(sim.pick(&["sim-agent/1.0", "x"]));
+        }
+        sim.probe("tuning-knobs-drawn");
+    }
+    (so, co)
 }
